@@ -53,6 +53,60 @@ def _first_value(code, blob):
     return float(v)
 
 
+def _compare_objects(cc, c18, eflr_elem, table, lf_index):
+    """<Object O C I> / <Attribute label count rc units> / <Value type value> of one EFLR element against the model."""
+    objs = eflr_elem.findall('Object')
+    if len(objs) != len(table['objects']):
+        cc.dev('xml-index==model', 'object-count', 'logical file %d set %r: %d Object elements, %d objects written' % (
+            lf_index, table['type'], len(objs), len(table['objects'])))
+        return
+    for oe, ob in zip(objs, table['objects']):
+        name = (str(ob['name'][0]), str(ob['name'][1]), ob['name'][2].decode('latin-1'))
+        if c18.char_only(name[2]) and (oe.get('O'), oe.get('C'), oe.get('I')) != name:
+            cc.dev('xml-index==model', 'object-name', 'set %r: Object %r, written %r' % (table['type'], (oe.get('O'), oe.get('C'), oe.get('I')), name))
+            continue
+        attrs = oe.findall('Attribute')
+        if len(attrs) != len(ob['cells']):
+            cc.dev('xml-index==model', 'attribute-count', 'set %r object %r: %d Attribute elements, %d template attributes' % (
+                table['type'], name, len(attrs), len(ob['cells'])))
+            continue
+        for ae, cell, t in zip(attrs, ob['cells'], table['template']):
+            if cell is None:
+                continue      # absent attribute: known finding C03-absent-attribute decides what is shown
+            if cell['rep_code'] == 6:
+                continue      # VSINGL values: known scaling finding
+            label = t['label'].decode('latin-1')
+            if c18.char_only(label) and ae.get('label') != label:
+                cc.dev('xml-index==model', 'attribute-label', 'set %r: label %r, written %r' % (table['type'], ae.get('label'), label))
+            vals = cell['values']
+            if vals is None:
+                continue
+            got = list(ae)
+            if len(got) != len(vals):
+                cc.dev('xml-index==model', 'value-count', 'set %r attribute %r: %d values in the index, %d written' % (table['type'], label, len(got), len(vals)))
+                continue
+            for ve, v in zip(got, vals):
+                if isinstance(v, bytes):
+                    text = v.decode('latin-1')
+                    cc.cls('xml-index:bytes-value-compared', c18.char_only(text))
+                    cc.cls('xml-index:bytes-value-with-high-byte', c18.char_only(text) and any(b >= 0x80 for b in v))
+                    if c18.char_only(text) and (ve.tag != 'Value' or ve.get('type') != 'bytes' or ve.get('value') != text):
+                        sig = 'bytes-value-changed:high-bytes' if any(b >= 0x80 for b in v) else 'bytes-value-changed'
+                        cc.dev('xml-index-values-recovered', sig, 'set %r attribute %r: wrote %r, index shows %r' % (
+                            table['type'], label, v[:40], (ve.get('value') or '')[:40]))
+                elif isinstance(v, bool):
+                    pass
+                elif isinstance(v, int):
+                    if ve.tag != 'Value' or ve.get('value') != str(v):
+                        cc.dev('xml-index-values-recovered', 'int-value-changed', 'set %r attribute %r: wrote %r, index shows %r' % (
+                            table['type'], label, v, ve.get('value')))
+                elif isinstance(v, tuple) and len(v) == 3 and isinstance(v[2], bytes):
+                    nm = (str(v[0]), str(v[1]), v[2].decode('latin-1'))
+                    if c18.char_only(nm[2]) and (ve.tag != 'ObjectName' or (ve.get('O'), ve.get('C'), ve.get('I')) != nm):
+                        cc.dev('xml-index-values-recovered', 'object-name-value-changed', 'set %r attribute %r: wrote %r, index shows %r' % (
+                            table['type'], label, nm, (ve.tag, ve.get('O'), ve.get('C'), ve.get('I'))))
+
+
 @st.composite
 def rp66_cases(draw):
     return draw(GD.logical_files(min_files=1, max_files=3, max_sets=4, crash_shapes=False, log_pass_weight=8, allow_encrypted=True))
@@ -113,6 +167,10 @@ def check_xml_index(case, cc):
         if ascii_ok and got != want:
             sig = 'eflr-count' if len(got) != len(want) else 'eflr-entry'
             cc.dev('xml-index==model', sig, 'logical file %d: EFLR elements %r, model %r' % (k, got[:6], want[:6]))
+        # attribute values of every object (the index was written with private=True, so every EFLR lists its objects)
+        if ascii_ok and got == want:
+            for e, ti in zip(eflrs, lf['tables']):
+                _compare_objects(cc, c18, e, model['tables'][ti], k)
         lp = lf['log_pass']
         xlp = x.find('LogPass')
         if lp is None:
